@@ -7,6 +7,7 @@ mod c02;
 mod c03;
 mod c04;
 mod c05;
+mod c06;
 mod c07;
 mod c08;
 mod c09;
@@ -69,6 +70,7 @@ fn main() {
         "C03" => c03::run(report),
         "C04" => c04::run(report),
         "C05" => c05::run(report),
+        "C06" => c06::run(report),
         "C07" => c07::run(report),
         "C08" => c08::run(report),
         "C09" => c09::run(report),
